@@ -341,6 +341,9 @@ pub enum PAct {
     ResetStorm(u8),
     /// a non-contributing message on every one of the 16 channels
     TouchAll,
+    /// fault injection (probe): a message whose n-th getter call panics, fed under catch_unwind
+    /// (index into the abort probe list, n)
+    AbortProbe(u8, u8),
     /// one CONTRIBUTING Control Change (the first of the alphabet, value 1) on each of the 15 OTHER
     /// channels: many channels hold progress at once ("which channels were touched" bookkeeping
     /// with a small fixed capacity shows at the next reset)
@@ -407,6 +410,19 @@ impl<O: PlainOracle> PlainSys<O> {
 
     fn vio(&self, rule: &str, cls: &str, detail: impl FnOnce() -> String) -> Violation {
         Violation::lazy(rule, format!("{}/{}/{}/{}", self.pid, <O::Sc as Scanner>::NAME, rule, cls), detail)
+    }
+
+    /// messages fed through the panicking third-party type: the first contributing Control Changes
+    /// of the alphabet (one per distinct controller, up to 4) and a non-contributing note-on
+    fn abort_msgs(&self) -> Vec<(u8, u8, u8)> {
+        let mut v: Vec<(u8, u8, u8)> = Vec::new();
+        for &(c, val) in &self.alphabet {
+            if v.len() < 4 && !v.iter().any(|m| m.1 == c) {
+                v.push((0xB0 | self.ch, c, val.max(1)));
+            }
+        }
+        v.push((0x90 | self.ch, 1, 1));
+        v
     }
 
     /// All cycles of length 1..=max_len over the given controllers (value 1).
@@ -640,6 +656,28 @@ impl<O: PlainOracle> PlainSys<O> {
                 }
                 Step { strict: true, next: Some(PState { sc, m: s.m.clone() }), obs: 0, violations: v }
             }
+            PAct::AbortProbe(i, n) => {
+                let (st, d1, d2) = self.abort_msgs()[*i as usize];
+                let mut v = Vec::new();
+                let mut sc = s.sc;
+                let msg = ForeignPanicky { s: st, d1: crate::midi::u7(d1), d2: crate::midi::u7(d2), calls: core::cell::Cell::new(0), panic_at: *n as u32 };
+                let r = xs::catch(|| sc.feed_msg(&msg));
+                if r.is_err() {
+                    // aborted: the scanner must be where it was, or where the complete feed leads
+                    let mut full = s.sc;
+                    let _ = full.feed_msg(&raw(st, d1, d2));
+                    if sc != s.sc && sc != full {
+                        v.push(self.vio("aborted-feed-leaves-inconsistent-state", "getter-panics", || format!("feeding ({:#04X},{},{}) through a message type whose getter call #{} panics (caught by the caller) left the scanner in a state that is neither the prior one nor the one after the complete feed: {:?}", st, d1, d2, n, sc)));
+                    } else if self.report.oracle || self.report.reset {
+                        // and it must go on behaving like that state
+                        let reference = if sc == s.sc { s.sc } else { full };
+                        if let Some(d) = post_reset_differential(&sc, &reference, self.ch, &self.diff_ctrls(), 2, false) {
+                            v.push(self.vio("aborted-feed-leaves-inconsistent-state", "getter-panics-behaviour", || format!("after an aborted feed of ({:#04X},{},{}) (getter call #{} panicked): {}", st, d1, d2, n, d)));
+                        }
+                    }
+                }
+                Step { strict: false, next: None, obs: r.is_err() as u64, violations: v }
+            }
             PAct::ProgressAll => {
                 let mut sc = s.sc;
                 let ctrl = self.alphabet[0].0;
@@ -721,6 +759,13 @@ impl<O: PlainOracle> System for PlainSys<O> {
             }
         }
         out.push(PAct::TouchAll);
+        if self.report.oracle {
+            for i in 0..self.abort_msgs().len() {
+                for n in 0..10u8 {
+                    out.push(PAct::AbortProbe(i as u8, n));
+                }
+            }
+        }
         if depth <= 1 && self.with_reset && self.report.reset {
             out.push(PAct::ProgressAll);
         }
@@ -763,10 +808,10 @@ impl<O: PlainOracle> System for PlainSys<O> {
         Some(debug_fp(&s.sc, 0, 0))
     }
     fn n_classes(&self) -> usize {
-        10
+        11
     }
     fn class_name(&self, i: usize) -> String {
-        ["feed-contributing-cc", "feed-cc-probe(concretisation)", "feed-must-be-transparent", "reset", "reset-probe", "feed-non-contributing(expanded)", "reset-storm", "touch-all-16-channels", "pumped-cycle", "progress-on-15-other-channels"][i].to_string()
+        ["feed-contributing-cc", "feed-cc-probe(concretisation)", "feed-must-be-transparent", "reset", "reset-probe", "feed-non-contributing(expanded)", "reset-storm", "touch-all-16-channels", "pumped-cycle", "progress-on-15-other-channels", "feed-aborted-by-a-panicking-getter(probe)"][i].to_string()
     }
     fn class_of(&self, a: &PAct) -> usize {
         match a {
@@ -780,6 +825,7 @@ impl<O: PlainOracle> System for PlainSys<O> {
             PAct::TouchAll => 7,
             PAct::Pump(..) => 8,
             PAct::ProgressAll => 9,
+            PAct::AbortProbe(..) => 10,
         }
     }
     fn render(&self, a: &PAct) -> String {
@@ -799,6 +845,7 @@ impl<O: PlainOracle> System for PlainSys<O> {
             PAct::ResetStorm(i) => format!("resetstorm:{}:{}", self.storms[*i as usize].0, self.storms[*i as usize].1),
             PAct::TouchAll => "touchall".to_string(),
             PAct::ProgressAll => "progressall".to_string(),
+            PAct::AbortProbe(i, n) => { let (st, d1, d2) = self.abort_msgs()[*i as usize]; format!("abortprobe:{}:{}:{}:{}", st, d1, d2, n) }
             PAct::Pump(i) => {
                 let n = self.pump_cycles.len();
                 let (reps, c) = if (*i as usize) < n { (self.pump_reps, &self.pump_cycles[*i as usize]) } else { (70_000, &self.pump_cycles[*i as usize - n]) };
@@ -831,6 +878,7 @@ impl<O: PlainOracle> System for PlainSys<O> {
             }
             PAct::TouchAll => "for c in 0..16 { scanner.feed(&helgoboss_midi::test_util::note_on(c, 1, 1)); }".to_string(),
             PAct::ProgressAll => format!("for c in 0..16 {{ if c != {} {{ scanner.feed(&helgoboss_midi::test_util::control_change(c, {}, 1)); }} }}", self.ch, self.alphabet[0].0),
+            PAct::AbortProbe(..) => format!("// {} (a ShortMessage implementation whose n-th getter call panics, fed inside catch_unwind)", self.render(a)),
             PAct::Pump(i) => {
                 let n = self.pump_cycles.len();
                 let (reps, c) = if (*i as usize) < n { (self.pump_reps, &self.pump_cycles[*i as usize]) } else { (70_000, &self.pump_cycles[*i as usize - n]) };
